@@ -143,12 +143,20 @@ CLAIMS = {
                 'on the real library.',
         'note': NOTE_COMMON + EVAL_HYP, 'technique': 'Coq refinement proof of the call log (mutual induction) + recording-function oracle + correspondence'},
     'C15': {
-        'text': 'PARTIAL. Proved: the ranking rule of addDeepestError (the selected error is a candidate; deeper replaces; shallower never; at '
-                'equal depth a type mismatch yields, member/function errors are kept) and what single-valued steps report (kind, own text, '
-                'Go type found). Not proved: the reported error = select(failure events of the specification) for multi-branch paths. Tie: '
-                'error type, path text, expected, found compared exactly with the model on every failing generated pair; independent '
-                'first-failing-step oracle for single-valued paths.',
-        'note': NOTE_COMMON, 'technique': 'Coq lemmas on the error-selection model + exact error comparison + first-failing-step oracle'},
+        'text': 'C15_error_is_specified (coq/Prop_C15.v, ErrRefine.v): on the evaluator model a call fails with exactly the error of the '
+                'stateless specification ErrSpec.serr and succeeds exactly when it reports none, which is exactly when the path selects '
+                'nothing (C15_error_iff_nothing_selected); C15_error_is_real_and_deepest (ErrReal.v, ErrSelect.v): the reported error is '
+                'one of the failure events of this path on this document (for every node the preceding steps reach, the failure of the '
+                'step applied there), carries the text of a step of the path as written, no failure event lies further along the path, '
+                'and a type mismatch is reported only if every failure at that depth is one; plus what each step kind reports for itself '
+                '(kind, own text, Go type found) and the ranking rule over any candidate list (C15_select_spec). Unbounded paths, '
+                'documents, branch counts. Hypotheses wf_node and ctext_ok (every node carries a non-empty remaining-path text: length 0 '
+                'doubles as "nothing recorded" in addDeepestError) are decidable and evaluated on every parsed tree. Tie: error type, path '
+                'text, expected, found compared exactly with the model on every failing generated pair; the extracted specification '
+                'runs next to the model; independent first-failing-step oracle for single-valued paths.',
+        'note': NOTE_COMMON + EVAL_HYP,
+        'technique': 'Coq refinement proof (model error = stateless error specification, mutual induction) + selection theorems + exact '
+                     'error comparison + first-failing-step oracle'},
     'C16': {
         'text': 'PARTIAL. Proved for EVERY key (any byte list): the three unescape routines invert the three escapings '
                 '(C16_double_quoted_roundtrip, C16_single_quoted_roundtrip through the byte state machine, C16_dot_roundtrip) and the '
